@@ -86,7 +86,7 @@ class Client:
 
         self.__capabilities: dict[str, str] = {}
         self.__respcode_expr = re.compile(rb"(OK|NO|BYE)\s*(.+)?")
-        self.__error_expr = re.compile(rb'(\([\w/-]+\))?\s*(".+")')
+        self.__respcode_value_expr = re.compile(rb'\(((?:[^()"]|"(?:[^"\\]|\\.)*")*)\)')
         self.__size_expr = re.compile(rb"\{(\d+)\+?\}")
         self.__active_expr = re.compile(rb"ACTIVE", re.IGNORECASE)
 
@@ -173,10 +173,12 @@ class Client:
 
             m = self.__respcode_expr.match(ret)
             if m:
+                errcode, errmsg = self.__parse_error(m.group(2))
                 if m.group(1) == b"BYE":
                     raise Error("Connection closed by server")
                 if m.group(1) == b"NO":
-                    self.__parse_error(m.group(2))
+                    self.errcode = errcode
+                    self.errmsg = errmsg
                 raise Response(m.group(1), m.group(2))
         return ret
 
@@ -309,33 +311,37 @@ class Client:
             )
         return True
 
-    def __parse_error(self, text: bytes):
-        """Parse an error received from the server.
+    def __parse_error(self, text: Optional[bytes]) -> Tuple[bytes, bytes]:
+        """Parse what follows the status (OK, NO or BYE) of a response.
 
-        if text corresponds to a size indication, we grab the
-        remaining content from the server.
+        Syntax: [SP "(" resp-code ")"] [SP string]
 
-        Otherwise, we try to match an error of the form \(\w+\)?\s*".+"
+        Both parts are optional. If the human readable text is sent
+        as a literal, we grab its content from the server (and the
+        CRLF that ends the response).
 
-        On succes, the two public members errcode and errmsg are
-        filled with the parsing results.
-
-        :param text: the response to parse
+        :param text: the end of the response line (None if empty)
+        :return: a tuple of the form (response code, text)
         """
-        m = self.__size_expr.match(text)
+        errcode, errmsg = b"", b""
+        if text is None:
+            return (errcode, errmsg)
+        text = text.lstrip()
+        if text.startswith(b"("):
+            m = self.__respcode_value_expr.match(text)
+            if m is None:
+                raise Error("Bad error message")
+            errcode = m.group(1)
+            text = text[m.end() :].lstrip()
+        m = self.__size_expr.fullmatch(text)
         if m is not None:
-            self.errcode = b""
-            self.errmsg = self.__read_block(int(m.group(1)) + 2)
-            return
-
-        m = self.__error_expr.match(text)
-        if m is None:
-            raise Error("Bad error message")
-        if m.group(1) is not None:
-            self.errcode = m.group(1).strip(b"()")
+            errmsg = self.__read_block(int(m.group(1)))
+            self.__read_block(len(CRLF))
+        elif len(text) >= 2 and text.startswith(b'"') and text.endswith(b'"'):
+            errmsg = re.sub(rb"\\(.)", rb"\1", text[1:-1])
         else:
-            self.errcode = b""
-        self.errmsg = m.group(2).strip(b'"')
+            errmsg = text
+        return (errcode, errmsg)
 
     def _plain_authentication(
         self, login: bytes, password: bytes, authz_id: bytes = b""
